@@ -12,13 +12,33 @@ UNVERIFIED = [
     'escrow always goes home (every escrowed token and the unused execution fee returned to the owner; a failed execution cancels and returns escrow without touching any market): token transfers / CPIs inside Anchor contexts (Close::process implementations, execute_* ops), outside any function contract within reach here',
     'only_role(expected_keeper_role()) itself (role membership: C18) and the per-action overrides of skip_completion_check_for_keeper (only CloseGlvShift overrides it; located by text on every run)',
     'that every execute_* operation calls header.completed()/cancelled() exactly on the success / soft-failure paths: located by text (ops/*.rs), not proved',
-    'no native replay: items of an Anchor program crate; a failed obligation is reported with the verifier output and no-failing-input-found',
+    'native replay exists only for ActionState::{completed, cancelled} (public items of gmsol-utils: all three states, exhaustive); the ActionHeader methods and Close::preprocess are items of an Anchor program crate: a failed obligation there is reported with the verifier output and no-failing-input-found',
 ]
 ASSUMPTIONS = []
 MANIFEST = dict(engine='verus',
     technique='Verus contracts on ActionState::{completed, cancelled, is_pending, is_completed_or_cancelled}, ActionHeader::{action_state, set_action_state, completed, cancelled} and the trait-default method Close::preprocess, extracted from /repo each run',
     text='Deductive proof, unbounded over all header states (every u8 state code) and callers: completed()/cancelled() succeed exactly from Pending, move to Completed/Cancelled, and fail without any change from a terminal or corrupt state (a terminal state is never left; each action completes or cancels at most once); Close::preprocess returns true only for the owner, and lets a non-owner proceed only with the keeper role and -- unless the action type opts out -- only for completed or cancelled actions, so a pending action can be closed only by its owner. Escrow-return clauses are not covered (listed).',
     note='Trusted: Verus+Z3, carriers, num_enum glue. Escrow flows and execute_* wiring are listed as unverified.')
+
+
+def replay(ob, repo, seed):
+    from engine import replay as R
+    if 'ActionState.completed' not in ob['id'] and 'ActionState.cancelled' not in ob['id']:
+        return None
+    lines, want = [], []
+    for op, target in (('completed', 1), ('cancelled', 2)):
+        for code in range(0, 4):
+            lines.append(f'action.{op} {code}')
+            want.append('NoSuchState' if code > 2 else (f'Ok({target})' if code == 0 else 'Err'))
+    outs = R.call_native(repo, lines)
+    for l, w, got in zip(lines, want, outs):
+        if got != w:
+            return dict(failing_input=dict(call=l, observed=got, expected=w),
+                        note='native execution of the real gmsol_utils::action::ActionState (state codes 0 Pending, 1 Completed, 2 Cancelled): a transition must succeed exactly from Pending')
+    return dict(failing_input=None, note=f'{len(lines)} native executions (every state x both transitions) agree with the statement')
+
+
+FALLBACK_OBS = ['C23.ActionState.completed']
 
 
 def extra(res, repo, tier, seed):
